@@ -5,6 +5,7 @@ import Driver.Strategies
 import Driver.Classify
 import Driver.RetryAfter
 import Driver.Probes
+import Driver.Sigs
 
 def main (args : List String) : IO UInt32 := do
   match args with
@@ -15,6 +16,7 @@ def main (args : List String) : IO UInt32 := do
   | ["classify"] => Driver.Classify.main; return 0
   | ["retryafter"] => Driver.RetryAfter.main; return 0
   | ["probes"] => Driver.Probes.main; return 0
+  | ["sigs"] => Driver.Sigs.main; return 0
   | _ =>
-    IO.eprintln "usage: driver loop|breaker|budget|strategies|classify|retryafter  < lines"
+    IO.eprintln "usage: driver loop|breaker|budget|strategies|classify|retryafter|probes|sigs  < lines"
     return 2
